@@ -104,13 +104,38 @@ theorem allocate_fresh {g : Geo} (hg : GeoOK g) (ops : List Op) (hv : Valid g Po
 theorem reuse_only_after_free {g : Geo} (hg : GeoOK g) (ops : List Op) (hv : Valid g Pool.empty ops)
     (i j : Nat) (b : Block) (hij : i < j)
     (hi : (run g Pool.empty ops).2[i]? = some (Ev.ret b)) (hj : (run g Pool.empty ops).2[j]? = some (Ev.ret b)) :
-    ∃ k, i < k ∧ k < j ∧ (run g Pool.empty ops).2[k]? = some (Ev.freed b) :=
+    ∃ k, i < k ∧ k < j ∧ (run g Pool.empty ops).2[k]? = some (Ev.freed (.blk b)) :=
   reuse_after_free hg ops _ (inv_empty _) hv i j hij hi hj
 
+/-- in a valid history the only requests that are refused (bad_alloc) are the ones the pool refuses by design:
+    `PoolAllocator::allocate(n)` with `n ≠ 1`, allocation while `operator new` fails, `free(nullptr)` and `free` of an
+    address outside every chunk.  Every `allocate()`, `allocate(1)` and every release of a live block succeeds. -/
+theorem only_bad_requests_refused {g : Geo} (hg : GeoOK g) (ops : List Op) (hv : Valid g Pool.empty ops) (i : Nat)
+    (h : (run g Pool.empty ops).2[i]? = some Ev.refused) : ∃ o, ops[i]? = some o ∧ o.isBad = true :=
+  refused_only_bad hg ops _ (inv_empty _) hv i h
+
 /-- giving back a live block is never refused -/
-theorem valid_free_accepted {g : Geo} (hg : GeoOK g) (ops : List Op) (hv : Valid g Pool.empty ops) :
-    Ev.refused ∉ (run g Pool.empty ops).2 :=
-  no_refusal hg ops _ (inv_empty _) hv
+theorem valid_free_accepted {g : Geo} (hg : GeoOK g) (ops : List Op) (hv : Valid g Pool.empty ops) (i : Nat) (b : Block)
+    (ho : ops[i]? = some (.free (.blk b))) : (run g Pool.empty ops).2[i]? ≠ some Ev.refused := by
+  intro h
+  obtain ⟨o, h1, h2⟩ := only_bad_requests_refused hg ops hv i h
+  rw [ho] at h1
+  simp only [Option.some.injEq] at h1
+  rw [← h1] at h2
+  simp [Op.isBad] at h2
+
+/-- a refused request leaves the pool exactly as it was (in every state, whatever the history) -/
+theorem refused_leaves_pool_unchanged (g : Geo) (p : Pool) (o : Op) (h : (step g p o).2 = .refused) :
+    (step g p o).1 = p := refused_unchanged g p o h
+
+/-- memory exhaustion: when `operator new` fails, `allocate` is refused with bad_alloc iff the free list is empty (the
+    pool is not touched: `new Chunk` is the first thing `grow()` does); with a free slot it is an ordinary allocation
+    that obtains no memory.  When `operator new` succeeds `allocate` never fails. -/
+theorem oom_refused_or_served_from_free_list (E : Nat) (p : Pool) :
+    (p.free = [] → allocateOS E false p = .error .alloc) ∧
+    (p.free ≠ [] → allocateOS E false p = .ok (allocate E p) ∧ (allocate E p).2.chunks = p.chunks) ∧
+    allocateOS E true p = .ok (allocate E p) :=
+  ⟨(allocateOS_false E p).1, (allocateOS_false E p).2, allocateOS_true E p⟩
 
 /-- destroying the pool deletes every chunk it ever obtained exactly once, whatever is still live; and a chunk is
     obtained only when no free slot exists -/
@@ -119,13 +144,22 @@ theorem destroy_releases_all {g : Geo} (hg : GeoOK g) (ops : List Op) (hv : Vali
     ∀ p, (allocate g.elements p).2.chunks.length = p.chunks.length + (if p.free = [] then 1 else 0) :=
   ⟨destroy_perm (inv_run hg ops _ (inv_empty _) hv), allocate_chunks _⟩
 
--- a history over 3-slot chunks that fills a chunk, frees the middle block, reuses it, and grows a second chunk
-example : Valid ⟨16, 48, 3⟩ Pool.empty [.alloc, .alloc, .alloc, .free (0, 1), .alloc, .alloc] ∧
-    (run ⟨16, 48, 3⟩ Pool.empty [.alloc, .alloc, .alloc, .free (0, 1), .alloc, .alloc]).2 =
-      [.ret (0, 0), .ret (0, 1), .ret (0, 2), .freed (0, 1), .ret (0, 1), .ret (1, 0)] ∧
-    destroy (run ⟨16, 48, 3⟩ Pool.empty [.alloc, .alloc, .alloc, .free (0, 1), .alloc, .alloc]).1 = [1, 0] ∧
+-- a history over 3-slot chunks that fills a chunk, is refused three times (allocate(2), free(nullptr), out of memory
+-- with an empty free list), frees the middle block, reuses it although memory is exhausted, and grows a second chunk
+example : Valid ⟨16, 48, 3⟩ Pool.empty
+      [.alloc, .allocN 1, .alloc, .allocN 2, .free .null, .allocOom, .free (.blk (0, 1)), .allocOom, .alloc, .free .foreign] ∧
+    (run ⟨16, 48, 3⟩ Pool.empty
+      [.alloc, .allocN 1, .alloc, .allocN 2, .free .null, .allocOom, .free (.blk (0, 1)), .allocOom, .alloc, .free .foreign]).2 =
+      [.ret (0, 0), .ret (0, 1), .ret (0, 2), .refused, .refused, .refused, .freed (.blk (0, 1)), .ret (0, 1), .ret (1, 0),
+       .refused] ∧
+    destroy (run ⟨16, 48, 3⟩ Pool.empty
+      [.alloc, .allocN 1, .alloc, .allocN 2, .free .null, .allocOom, .free (.blk (0, 1)), .allocOom, .alloc, .free .foreign]).1 =
+      [1, 0] ∧
     GeoOK ⟨16, 48, 3⟩ := by
   refine ⟨by decide, by decide, by decide, ⟨by decide, by decide, by decide⟩⟩
+
+-- giving back a block twice is NOT a valid history (the second release is of a block that is not live)
+example : ¬ Valid ⟨16, 48, 3⟩ Pool.empty [.alloc, .free (.blk (0, 0)), .free (.blk (0, 0))] := by decide
 
 /-- end to end for the generated geometry of `Pool<T,s>`: after every valid history, for every placement of the chunks
     that `operator new` may choose, every live block is aligned for `T`, lies inside its chunk with room for a `T`,
@@ -161,9 +195,33 @@ theorem pool_live_blocks_disjoint_aligned (sz al s : Nat) (hal : 0 < al) (ops : 
     omega
 
 -- the element type of the first example (sizeof 12, alignof 4, pool size 100): two chunks 104 bytes apart
-example : Valid (geoOf 12 4 100) Pool.empty [.alloc, .alloc, .free (0, 0), .alloc] ∧
-    (run (geoOf 12 4 100) Pool.empty [.alloc, .alloc, .free (0, 0), .alloc]).1.live = [(0, 1), (0, 0)] := by
+example : Valid (geoOf 12 4 100) Pool.empty [.alloc, .alloc, .free (.blk (0, 0)), .alloc] ∧
+    (run (geoOf 12 4 100) Pool.empty [.alloc, .alloc, .free (.blk (0, 0)), .alloc]).1.live = [(0, 1), (0, 0)] := by
   decide
+
+-- … and the hypotheses about the placement of the chunks are satisfiable: chunks placed back to back from address 8000
+-- (104 = 13·8 bytes each) are aligned to the slot alignment 8 and separated, so the theorem applies to this history
+example : ∀ b ∈ (run (geoOf 12 4 100) Pool.empty [.alloc, .alloc, .free (.blk (0, 0)), .alloc]).1.live,
+    4 ∣ addr (geoOf 12 4 100) (fun c => 8000 + c * 104) b := by
+  intro b hb
+  have ha : alignment 12 4 100 = 8 := by decide
+  have hc : (geoOf 12 4 100).chunkSize = 104 := by decide
+  have := pool_live_blocks_disjoint_aligned 12 4 100 (by decide) [.alloc, .alloc, .free (.blk (0, 0)), .alloc] (by decide)
+    (fun c => 8000 + c * 104) (fun c => by rw [ha]; exact ⟨1000 + c * 13, by omega⟩)
+    (fun c c' h => by rw [hc]; omega) b hb
+  exact this.1.1
+
+-- `slots_disjoint_aligned` for the same placement: slots 0 and 5 of chunks 0 and 1 (16-byte slots aligned to 8)
+example : 8 ∣ addr (geoOf 12 4 100) (fun c => 8000 + c * 104) (0, 5) ∧
+    (addr (geoOf 12 4 100) (fun c => 8000 + c * 104) (0, 5) + 16 ≤ addr (geoOf 12 4 100) (fun c => 8000 + c * 104) (1, 0) ∨
+     addr (geoOf 12 4 100) (fun c => 8000 + c * 104) (1, 0) + 16 ≤ addr (geoOf 12 4 100) (fun c => 8000 + c * 104) (0, 5)) := by
+  have hc : (geoOf 12 4 100).chunkSize = 104 := by decide
+  have hs : (geoOf 12 4 100).alignedSize = 16 := by decide
+  have := slots_disjoint_aligned (geoOf 12 4 100) 8 (fun c => 8000 + c * 104) (by decide) (by decide)
+    (fun c => ⟨1000 + c * 13, by omega⟩) (fun c c' h => by rw [hc]; omega) (b := (0, 5)) (b' := (1, 0))
+    (by decide) (by decide) (by decide)
+  rw [hs] at this
+  exact ⟨this.1, this.2.2.2⟩
 
 /-! ## PoolAllocator<T,s> -/
 
@@ -186,18 +244,32 @@ theorem pa_pool_size (sz s : Nat) : paPoolSize sz s = s * sz := rfl
 
 /-- a request whose byte size does not fit into `size_t` is refused with bad_alloc whatever the C library would do
     (the product `n * sizeof(T)` is never formed) -/
-theorem malloc_overflow_refused (sz n : Nat) (h : sizeMax < n * sz) (os : Nat → Bool) :
-    mallocAllocate sz n os = .error .alloc := malloc_refused' h os
+theorem malloc_overflow_refused (sz al n : Nat) (h : sizeMax < n * sz) (os : Nat → Bool) :
+    mallocAllocate sz al n os = .error .alloc := malloc_refused' al h os
 
-/-- a served request got exactly `n * sizeof(T)` bytes (no wrap-around) from a successful `malloc` -/
-theorem malloc_served_exact (sz n bytes : Nat) (hsz : 0 < sz) (os : Nat → Bool)
-    (h : mallocAllocate sz n os = .ok bytes) : bytes = n * sz ∧ os bytes = true ∧ n * sz ≤ sizeMax :=
-  malloc_served' hsz h
+/-- a served request got exactly `n * sizeof(T)` bytes (no wrap-around) from a successful call of the C library, made
+    with an alignment guarantee `a` (malloc: `alignof(max_align_t)`; over-aligned `T`: `aligned_alloc(alignof(T), …)`)
+    that suffices for `T` whenever `alignof(T)` is a power of two -/
+theorem malloc_served_exact (sz al n a bytes : Nat) (hsz : 0 < sz) (os : Nat → Bool)
+    (h : mallocAllocate sz al n os = .ok (a, bytes)) :
+    bytes = n * sz ∧ os bytes = true ∧ n * sz ≤ sizeMax ∧ a = mallocAlignment al ∧
+    ∀ k, al = 2 ^ k → ∀ p, a ∣ p → al ∣ p := by
+  obtain ⟨h1, h2, h3, h4⟩ := malloc_served' hsz h
+  refine ⟨h2, h3, h4, h1, fun k hk p hp => ?_⟩
+  rw [h1, hk] at hp
+  rw [hk]
+  exact Nat.dvd_trans (mallocAlignment_dvd k) hp
 
--- 2^61+1 doubles wrap around to 8 bytes: refused; 3 doubles: 24 bytes
-example : sizeMax < (2 ^ 61 + 1) * 8 ∧ mallocAllocate 8 (2 ^ 61 + 1) (fun _ => true) = .error .alloc ∧
-    mallocAllocate 8 3 (fun _ => true) = .ok 24 ∧ mallocAllocate 8 3 (fun _ => false) = .error .alloc :=
-  ⟨by decide, rfl, rfl, rfl⟩
+/-- the alignment of the blocks `MallocAllocator<T>` obtains is a multiple of `alignof(T)` for every power-of-two
+    alignment — also beyond `alignof(max_align_t)` (false for the unrepaired allocator, which always called malloc) -/
+theorem malloc_block_aligned (k : Nat) : 2 ^ k ∣ mallocAlignment (2 ^ k) := mallocAlignment_dvd k
+
+-- 2^61+1 doubles wrap around to 8 bytes: refused; 3 doubles: 24 bytes from malloc (16-aligned);
+-- one 64-byte object aligned to 64: 64 bytes from aligned_alloc(64, 64)
+example : sizeMax < (2 ^ 61 + 1) * 8 ∧ mallocAllocate 8 8 (2 ^ 61 + 1) (fun _ => true) = .error .alloc ∧
+    mallocAllocate 8 8 3 (fun _ => true) = .ok (16, 24) ∧ mallocAllocate 8 8 3 (fun _ => false) = .error .alloc ∧
+    mallocAllocate 64 64 1 (fun _ => true) = .ok (64, 64) ∧ mallocAlignment (2 ^ 5) = 32 ∧ mallocAlignment (2 ^ 2) = 16 :=
+  ⟨by decide, rfl, rfl, rfl, rfl, by decide, by decide⟩
 
 theorem aligned_overflow_refused (sz al A n : Nat) (h : sizeMax < n * sz) (os : Nat → Bool) :
     alignedAllocate sz al A n os = .error .alloc := aligned_refused' al A h os
@@ -262,22 +334,109 @@ theorem debug_ptr_aligned (sz page n al : Nat) (hsz : 0 < sz) (hp : 0 < page) (h
     al ∣ ai.ptr :=
   dbg_ptr_aligned' hsz hp hp2 h h1 h2 (Nat.dvd_trans h2 h3)
 
-/-- `deallocate(ptr)` finds the block: when every recorded block's lookup key is its own `page_ptr` and the mappings
-    are distinct (`DInv`, established by `debug_history_never_aborts`), deallocating the pointer of any recorded block
-    removes exactly that block -/
-theorem debug_dealloc_finds_block (page : Nat) (l : List AInfo) (hi : DInv page l) (it : AInfo) (hit : it ∈ l) :
-    dbgDeallocate page l it.ptr = some (l.erase it) := dbgDeallocate_finds hi it hit
+-- 100 doubles at a page-aligned mapping: 8 ∣ 8, 8 ∣ 4096, 4096 ∣ 0x20000, so the block address is a multiple of 8
+example : 8 ∣ 0x20000 + 4096 - 800 :=
+  debug_ptr_aligned 8 4096 100 8 (by decide) (by decide) (by decide) (fun _ => some 0x20000) [] _ _ rfl
+    (by decide) (by decide) (by decide : 4096 ∣ 0x20000)
+
+/-- `deallocate(ptr, n)` finds the block: in every list satisfying the invariant `DInv` (established for all valid
+    histories by `debug_history_never_aborts`), deallocating the pointer of any recorded block with its size — or with
+    `n = 0`, which skips the size test — removes exactly that block and reports it for unmapping -/
+theorem debug_dealloc_finds_block (page : Nat) (l : List AInfo) (hi : DInv page l) (it : AInfo) (hit : it ∈ l)
+    (n : Nat) (hn : n = 0 ∨ n = it.size) :
+    dbgDeallocate page l it.ptr n = some (it, l.erase it) := dbgDeallocate_finds separates_ne hi it hit n hn
 
 /-- for every history in which `mmap` returns page-aligned addresses of mappings not in use and only pointers of live
-    blocks are given back, the manager never reaches `allocation_error` and `DInv` holds afterwards -/
+    blocks are given back (with their size or with 0), the manager never reaches `allocation_error`, `DInv` holds
+    afterwards, and the OS calls balance: what was mapped is exactly what was unmapped plus the mappings of the
+    blocks still recorded (same start address, same length) -/
 theorem debug_history_never_aborts (sz page : Nat) (hsz : 0 < sz) (hp : 0 < page) (hp2 : 2 * page ≤ sizeMax)
     (ops : List DOp) (hv : DValid sz page [] ops) :
-    ∃ l, dbgRun sz page [] ops = some l ∧ DInv page l :=
-  dbgRun_ok hsz hp hp2 ops [] ⟨by simp, by simp⟩ hv
+    ∃ l evs, dbgRun sz page [] ops = some (l, evs) ∧ DInv page l ∧
+      (maps evs).Perm (unmaps evs ++ l.map (AInfo.rng page)) := by
+  obtain ⟨st, h1, h2, h3⟩ := dbgRun_ok separates_ne hsz hp hp2 ops [] (dinv_nil _ _) hv
+  exact ⟨st.1, st.2, h1, h2, by simpa using h3⟩
 
--- allocate one page, then 100 bytes, give the first (page-multiple) block back, then the second
-example : dbgRun 1 4096 [] [.alloc 4096 (some 0x10000), .alloc 100 (some 0x30000), .free 0x10000,
-    .free (0x30000 + 4096 - 100)] = some [] := by decide
+/-- all memory is returned: after any valid history, the unmap calls made so far together with those of the destructor
+    `~AllocationManager` are a permutation of the map calls (same addresses, same lengths); in particular, when every
+    block has been given back, everything is already unmapped and the destructor finds nothing in use -/
+theorem debug_returns_all_memory (sz page : Nat) (hsz : 0 < sz) (hp : 0 < page) (hp2 : 2 * page ≤ sizeMax)
+    (ops : List DOp) (hv : DValid sz page [] ops) :
+    ∃ l evs, dbgRun sz page [] ops = some (l, evs) ∧
+      (maps evs).Perm (unmaps (evs ++ (dbgDestroy page l).1)) ∧
+      (l = [] → (maps evs).Perm (unmaps evs) ∧ dbgDestroy page l = ([], true)) := by
+  obtain ⟨l, evs, h1, h2, h3⟩ := debug_history_never_aborts sz page hsz hp hp2 ops hv
+  refine ⟨l, evs, h1, ?_, ?_⟩
+  · rw [unmaps_append]
+    have : unmaps (dbgDestroy page l).1 = l.map (AInfo.rng page) := by
+      have he := h2.entry
+      clear h1 h2 h3 hv
+      induction l with
+      | nil => rfl
+      | cons x xs ih =>
+        have hx := dbgDtorUnmapLen_eq (he x (by simp))
+        have := ih (fun it hit => he it (List.mem_cons_of_mem _ hit))
+        simp only [dbgDestroy, List.map_cons, unmaps, AInfo.rng, hx] at this ⊢
+        rw [this]
+    rw [this]; exact h3
+  · intro hl
+    subst hl
+    exact ⟨by simpa using h3, rfl⟩
+
+/-- live blocks are disjoint and usable: when `mmap` returns address ranges disjoint from the mappings in use, then
+    after every valid history any two recorded blocks do not overlap, no block reaches into any guard page (its own or
+    another block's), and every block lies inside its own mapping -/
+theorem debug_live_blocks_disjoint (sz page : Nat) (hsz : 0 < sz) (hp : 0 < page) (hp2 : 2 * page ≤ sizeMax)
+    (ops : List DOp) (hv : DValidD sz page [] ops) :
+    ∃ l evs, dbgRun sz page [] ops = some (l, evs) ∧
+      l.Pairwise (fun a b =>
+        (a.ptr + a.cap ≤ b.ptr ∨ b.ptr + b.cap ≤ a.ptr) ∧
+        (a.ptr + a.cap ≤ b.pagePtr + (b.pages - 1) * page ∨ b.pagePtr + b.pages * page ≤ a.ptr) ∧
+        (b.ptr + b.cap ≤ a.pagePtr + (a.pages - 1) * page ∨ a.pagePtr + a.pages * page ≤ b.ptr)) ∧
+      ∀ it ∈ l, it.pagePtr ≤ it.ptr ∧ it.ptr + it.cap = it.pagePtr + (it.pages - 1) * page ∧ 1 ≤ it.pages := by
+  obtain ⟨st, h1, h2, _⟩ := dbgRun_ok (separates_apart hp) hsz hp hp2 ops [] (dinv_nil _ _) hv
+  refine ⟨st.1, st.2, h1, ?_, fun it hit => ?_⟩
+  · have he := h2.entry
+    refine List.Pairwise.imp_of_mem (fun {a b} ha hb hab => ?_) h2.rel
+    have hab' : apart page b a := by unfold apart at hab ⊢; omega
+    exact ⟨(blocks_apart (he a ha) (he b hb) hab).1, (blocks_apart (he a ha) (he b hb) hab).2,
+      (blocks_apart (he b hb) (he a ha) hab').2⟩
+  · have e := h2.entry it hit
+    have h3 := e.ends
+    have h4 := e.pages_pos
+    have hsub : (it.pages - 1) * page + page = it.pages * page := by
+      have : it.pages - 1 + 1 = it.pages := by omega
+      rw [← this, Nat.add_mul, Nat.one_mul]; simp
+    exact ⟨e.ptr_ge, by omega, h4⟩
+
+-- allocate one page, then 100 bytes, give the first (page-multiple) block back with n = 0, then the second with its size:
+-- nothing left, two maps and two unmaps of the same ranges
+example : dbgRun 1 4096 [] [.alloc 4096 (some 0x10000), .alloc 100 (some 0x30000), .free 0x10000 0,
+    .free (0x30000 + 4096 - 100) 100] =
+      some ([], [.map 0x10000 8192, .map 0x30000 8192, .unmap 0x10000 8192, .unmap 0x30000 8192]) ∧
+    DValidD 1 4096 [] [.alloc 4096 (some 0x10000), .alloc 100 (some 0x30000), .free 0x10000 0,
+      .free (0x30000 + 4096 - 100) 100] := by
+  refine ⟨by decide, ?_⟩
+  refine dvalid_alloc_ok (ai := ⟨0x10000, 0x10000, 2, 4096, 4096⟩) (l' := [⟨0x10000, 0x10000, 2, 4096, 4096⟩])
+    rfl (by decide) (by decide) ?_
+  refine dvalid_alloc_ok (ai := ⟨0x30000, 0x30000 + 4096 - 100, 2, 100, 100⟩)
+    (l' := [⟨0x10000, 0x10000, 2, 4096, 4096⟩, ⟨0x30000, 0x30000 + 4096 - 100, 2, 100, 100⟩]) rfl (by decide) (by decide) ?_
+  refine dvalid_free (it := ⟨0x10000, 0x10000, 2, 4096, 4096⟩) (l' := [⟨0x30000, 0x30000 + 4096 - 100, 2, 100, 100⟩])
+    (by decide) (by decide) rfl (Or.inl rfl) ?_
+  refine dvalid_free (it := ⟨0x30000, 0x30000 + 4096 - 100, 2, 100, 100⟩) (l' := []) (by decide) (by decide) rfl
+    (Or.inr rfl) ?_
+  exact trivial
+
+-- the list after the two allocations of this history satisfies `DInv`, and `deallocate` finds its second block
+example : DInv 4096 [⟨0x10000, 0x10000, 2, 4096, 4096⟩, ⟨0x30000, 0x30000 + 4096 - 100, 2, 100, 100⟩] ∧
+    dbgDeallocate 4096 [⟨0x10000, 0x10000, 2, 4096, 4096⟩, ⟨0x30000, 0x30000 + 4096 - 100, 2, 100, 100⟩]
+      (0x30000 + 4096 - 100) 100 = some (⟨0x30000, 0x30000 + 4096 - 100, 2, 100, 100⟩, [⟨0x10000, 0x10000, 2, 4096, 4096⟩]) := by
+  refine ⟨⟨fun it hit => ?_, by decide⟩, by decide⟩
+  simp only [List.mem_cons, List.mem_nil_iff, or_false] at hit
+  rcases hit with rfl | rfl <;> exact ⟨by decide, by decide, by decide, by decide, by decide⟩
+
+-- deallocating with a wrong size aborts (`none`)
+example : dbgRun 1 4096 [] [.alloc 100 (some 0x30000), .free (0x30000 + 4096 - 100) 99] = none := by decide
 
 /-! ## debugalign.hh -/
 
